@@ -1,5 +1,5 @@
 import Lean
-import AptMirror.Props.C16
+import AptMirror
 /-
   Prints, for every theorem declared in a module `AptMirror.Props.*`, the axioms it depends on.
   Output lines:  AUDIT <module> <theorem> [axiom, ...]
